@@ -67,6 +67,16 @@ CHECKS = {
             "counting-sort permutation and the FIFO queue discipline are stated assumptions.",
             "symbolic interval analysis (abstract interpretation) over the clang JSON AST + ast lints with CFG dominance",
             "DESIGN.md section 4 C20"),
+    "C02": (True, "other",
+            "Decides the structural definition of 'the peak': data-flow from every peak kernel's index argument back to "
+            "the one locator applied to the direction-integrated spectrum at full precision; a comparison-only analysis "
+            "of the locator (both neighbour tests strict, paddings repeat the array's own end element with matching diff "
+            "labels, conjunction, zero fill, arg-max along freq) which is exactly 'largest interior strict local maximum, "
+            "else 0'; NaN guards in the kernels; the data path of the peak direction; gamma's density source (one known "
+            "finding).",
+            "the parabola vertex position, ties between equal peaks and alpha's fitted value are numeric and not decided.",
+            "custom ast rules: reaching-definition data-flow + comparison-only (finite ordering) analysis of the locator",
+            "DESIGN.md section 4 C02"),
 }
 
 NA_DEFAULT = "check under construction in this build round (see DESIGN.md section 8)"
